@@ -383,6 +383,15 @@ def replay_file(prop, path, env_extra=None, binary="replay"):
     if "steps" not in case:
         raise ToolError(f"{path} is not a replayable engine case")
     work = os.path.join(WORK, prop, "replay1")
+    if case.get("vmtrace"):
+        case = dict(case, id=case["id"].replace("@vmtrace", ""))
+        os.makedirs(work, exist_ok=True)
+        summary, problems, _ = vm_trace_validate([case], work, "replay1")
+        print(json.dumps({"summary": summary, "problems": problems}, indent=1))
+        if problems:
+            print(f"VIOLATION property={prop} replay={path}")
+            return 1
+        return 0
     if case.get("module_file"):
         os.makedirs(os.path.dirname(case["module_file"]), exist_ok=True)
         with open(case["module_file"], "w") as f:
@@ -544,7 +553,7 @@ def _tlc_vm_trace(path, workdir, idx, timeout):
     out = p.stdout
     res = {"path": path, "accepted": False, "events": 0, "unmodelled": 0, "flags": [], "rejected_at": None,
            "invariant": None, "rc": p.returncode}
-    m = re.search(r'"TRACE-DONE", \[events \|-> (\d+), unmodelled \|-> (\d+), flags \|-> (\{.*?\})\]', out, re.S)
+    m = re.search(r'"TRACE-DONE",\s*\[\s*events \|-> (\d+),\s*unmodelled \|-> (\d+),\s*flags \|->\s*(\{.*?\})\s*\]', out, re.S)
     if m:
         res["events"] = int(m.group(1))
         res["unmodelled"] = int(m.group(2))
@@ -580,6 +589,21 @@ def vm_trace_validate(cases, workdir, name, cap=3000, tlc_jobs=8, timeout=900, e
         env.update(env_extra)
     verdicts = replay(cases, workdir, env_extra=env, jobs=12, timeout_ms=30000, name=f"vmrec.{name}")
     files = sorted(os.path.join(tdir, f) for f in os.listdir(tdir) if f.endswith(".ndjson"))
+    # a replayer process that died (panic below native frames, stack overflow) leaves a cut last line
+    for path in files:
+        with open(path, errors="replace") as f:
+            lines = f.readlines()
+        good = []
+        for ln in lines:
+            try:
+                json.loads(ln)
+                good.append(ln if ln.endswith("\n") else ln + "\n")
+            except ValueError:
+                pass
+        if len(good) != len(lines):
+            with open(path, "w") as f:
+                f.writelines(good)
+    files = [p_ for p_ in files if os.path.getsize(p_) > 0]
     t0 = time.time()
     with ThreadPoolExecutor(max_workers=tlc_jobs) as ex:
         results = list(ex.map(lambda a: _tlc_vm_trace(a[1], workdir, f"{name}{a[0]}", timeout), enumerate(files)))
@@ -601,10 +625,37 @@ def vm_trace_validate(cases, workdir, name, cap=3000, tlc_jobs=8, timeout=900, e
                         pass
         return cid
 
+    # a rejected / invariant-violating case hides the rest of its file: cut the case out and validate
+    # the remainder again (every case starts from a reset, so the remainder is a trace of its own)
+    def cut_case(path, evno, newpath):
+        with open(path) as f:
+            lines = f.readlines()
+        starts = [i for i, ln in enumerate(lines) if '"k":"case"' in ln]
+        cur = max([i for i in starts if i < max(evno, 1)] or [0])
+        nxt = min([i for i in starts if i > cur] or [len(lines)])
+        with open(newpath, "w") as f:
+            f.writelines(lines[:cur] + lines[nxt:])
+        return len(lines[:cur] + lines[nxt:])
+    rounds = 0
+    pending = [res for res in results if not res["accepted"] and not res.get("tool_error") and not res.get("timeout")]
+    while pending and rounds < 12:
+        rounds += 1
+        nxt = []
+        for res in pending:
+            ev = res["rejected_at"] or 0
+            newpath = res["path"] + f".r{rounds}"
+            if cut_case(res["path"], ev, newpath) == 0:
+                continue
+            res2 = _tlc_vm_trace(newpath, workdir, f"{name}r{rounds}", timeout)
+            results.append(res2)
+            if not res2["accepted"] and not res2.get("tool_error") and not res2.get("timeout"):
+                nxt.append(res2)
+        pending = nxt
     for res in results:
         with open(res["path"]) as f:
             ncases = sum(1 for line in f if '"k":"case"' in line)
-        summary["cases_recorded"] += ncases
+        if ".ndjson.r" not in res["path"]:
+            summary["cases_recorded"] += ncases
         if res.get("tool_error") or res.get("timeout"):
             raise ToolError(f"Trace_Vm.tla on {res['path']}: " + (res.get("tool_error") or "timeout"))
         if res["accepted"]:
@@ -621,4 +672,92 @@ def vm_trace_validate(cases, workdir, name, cap=3000, tlc_jobs=8, timeout=900, e
                              "event": ev, "file": res["path"], "case_id": case_of(res["path"], ev)})
     log(f"[vmtrace] {name}: {summary['files']} trace files, {summary['cases_recorded']} cases, {summary['events']} events "
         f"validated in {time.time()-t0:.1f}s, unmodelled {summary['unmodelled']}, problems {len(problems)}")
+    return summary, problems, verdicts
+
+
+def vm_trace_selftest(workdir, name):
+    """Non-vacuity of the binding: an accepted trace with ONE field of ONE event changed (the stack length
+    after a call that entered a closure; the address a return goes to) must be rejected."""
+    tdir = os.path.join(workdir, f"vmtrace-{name}")
+    files = sorted(os.path.join(tdir, f) for f in os.listdir(tdir) if f.endswith(".ndjson"))
+
+    def find(evs, tag):
+        for i in range(1, len(evs)):
+            a, b = evs[i - 1], evs[i]
+            if a.get("k") != "step" or b.get("k") != "step":
+                continue
+            if tag == "call-sl" and b.get("fl") == a.get("fl", 0) + 1:
+                return i, dict(b, sl=b["sl"] + 1)
+            if tag == "tail-sl" and a.get("op") in ("TCOJMP", "SELFTAILCALLNOARITY", "CALLGLOBALTAIL", "CALLGLOBALTAILNOARITY", "TAILCALL") \
+                    and b.get("fl") == a.get("fl") and b.get("ip") == 0:
+                return i, dict(b, sl=b["sl"] + 1)
+            if tag == "ret-ip" and a.get("op") in ("POPPURE", "POPJMP") and b.get("fl") == a.get("fl", 0) - 1:
+                return i, dict(b, ip=b["ip"] + 1)
+        return None
+
+    done = []
+    for path in files:
+        with open(path) as f:
+            lines = f.readlines()
+        starts = [i for i, ln in enumerate(lines) if '"k":"case"' in ln] + [len(lines)]
+        for tag in ("call-sl", "ret-ip", "tail-sl"):
+            if tag in done:
+                continue
+            for a, b in zip(starts, starts[1:]):
+                seg = lines[a:min(b, a + 3500)]       # a prefix of a behaviour is a behaviour
+                evs = []
+                for ln in seg:
+                    try:
+                        evs.append(json.loads(ln))
+                    except Exception:
+                        evs.append({})
+                tr = [i for i, e in enumerate(evs) if e.get("k") == "trunc"]
+                if tr:
+                    seg, evs = seg[:tr[0]], evs[:tr[0]]
+                m = find(evs, tag)
+                if not m:
+                    continue
+                base = path + ".st0"
+                with open(base, "w") as f:
+                    f.writelines(seg)
+                if not _tlc_vm_trace(base, workdir, f"{name}st0", 300)["accepted"]:
+                    continue
+                i, ev = m
+                mp = path + ".st-" + tag
+                with open(mp, "w") as f:
+                    f.writelines(seg[:i] + [json.dumps(ev, separators=(",", ":")) + "\n"] + seg[i + 1:])
+                res = _tlc_vm_trace(mp, workdir, f"{name}st{tag}", 300)
+                if res["accepted"] or res.get("tool_error") or res.get("timeout"):
+                    raise ToolError(f"Trace_Vm.tla self-test: mutated trace ({tag} at event {i + 1} of {mp}) was not rejected: {res}")
+                done.append(tag)
+                break
+        if len(done) == 3:
+            return done
+    if len(done) >= 2:
+        return done
+    raise ToolError(f"Trace_Vm.tla self-test: no accepted case with a closure call and a return to mutate (found {done})")
+
+
+def vm_trace_check(r, cases, workdir, name, cap=3000, selftest=True, env_extra=None):
+    """impl -> spec binding for C01 / C07 / C08 / C09: the cases run on the real engine with the VM hooks on
+    (interpreter), every recorded trace must be a behaviour of spec/Vm.tla (Trace_Vm.tla).  A rejected trace,
+    a violated invariant of Vm.tla on the reconstructed state, or a verdict flag is a failing verdict of the
+    case (attributed to a known finding only through its textual signature)."""
+    summary, problems, verdicts = vm_trace_validate(cases, workdir, name, cap=cap, env_extra=env_extra)
+    r.cov["traces_validated_against_impl"] += summary["traces"]
+    r.cov.setdefault("vm_traces", {})[name] = summary
+    bycase = {c["id"]: c for c in cases}
+    for p in problems:
+        case = bycase.get(p["case_id"]) or {"id": str(p["case_id"]), "steps": []}
+        excerpt = []
+        try:
+            with open(p["file"]) as f:
+                lines = f.readlines()
+            excerpt = [ln.strip() for ln in lines[max(0, p["event"] - 6):p["event"] + 1]]
+        except OSError:
+            pass
+        why = f"vmtrace {p['kind']}: {p['tag']} (event {p['event']} of the recorded trace)"
+        r.fail_case(dict(case, id=case["id"] + "@vmtrace", vm_trace_excerpt=excerpt, vmtrace=True), {"pass": False, "why": why})
+    if selftest:
+        r.notes.append(f"Trace_Vm self-test ({name}): mutations rejected: " + ", ".join(vm_trace_selftest(workdir, name)))
     return summary, problems, verdicts
